@@ -1138,6 +1138,15 @@ impl SwarmDriver {
     }
 }
 
+#[cfg(maidsafe_safe_network_verif)]
+pub(crate) fn verif_get_peers_in_range(
+    peers: &[PeerId],
+    address: &NetworkAddress,
+    range: U256,
+) -> Vec<PeerId> {
+    get_peers_in_range(peers, address, range)
+}
+
 /// Returns the nodes that within the defined distance.
 fn get_peers_in_range(peers: &[PeerId], address: &NetworkAddress, range: U256) -> Vec<PeerId> {
     peers
